@@ -51,7 +51,7 @@ RACE = {"C02", "C03", "C04", "C05", "C06", "C07", "C09", "C10", "C11", "C12", "C
 RACE_NARROW = {"C05": "lambda/rapid/shutdown.go, lambda/rapid/exit.go and lambda/core/flow.go",
                "C07": "lambda/rapid/shutdown.go, lambda/core/states.go, lambda/rapi/handler/invocationresponse.go and lambda/rapi/rendering/render_error.go"}
 
-UY = {"C07": ("20 000", "200 000"), "C08": ("8 000", "100 000")}
+UY = {"C07": ("20 000", "200 000"), "C08": ("8 000", "100 000"), "C05": ("5 000", "30 000"), "C10": ("5 000", "30 000")}
 
 NA = [
  ("C16", "pure function of configuration (environment layering); no schedule, clock, fault or interleaving for a simulator to decide (DESIGN.md 4)"),
@@ -69,7 +69,7 @@ def main():
                 text += " For this property the race pass (3 000 runs quick) is narrowed to " + RACE_NARROW[pid] + " (DESIGN 11.12)."
         if pid in UY:
             tech += "; followed by an unlock-yield pass: the same seeded scenarios with one more kind of scheduling point, the release of a lock, and goroutines held at the explicit unlock points of the tree (DESIGN 11.17)"
-            text += " After the main pass an unlock-yield pass (%s runs quick, %s thorough) runs the same generator with a scheduling point after every release of a lock and holds a goroutine, across the emulator's own timers, at a place where a function goes on after an explicit Unlock." % UY[pid]
+            text += " After the main pass an unlock-yield pass (%s runs quick, %s thorough) runs the same generator with a scheduling point after every release of a lock and holds goroutines at places where a function goes on after an explicit Unlock (in C07 and C08 in every run and across the emulator's own timers)." % UY[pid]
         checks.append({
             "property_id": pid,
             "quick_cmd": f"/verif/bin/verif check {pid} --tier quick",
